@@ -76,6 +76,15 @@ func allChecks() []CheckSpec {
 						c.MaxPaths = 8000000
 						c.MaxWallS = 1500
 					}},
+				{Fn: "verifC11RestartDuringCycleWithCandidate", Lemma: "the same with one interface (the cycle opens a socket and publishes a host candidate through the real addCandidate): once Restart has returned and the superseded cycle wound down, no candidate of it is on record in the new generation, every announced candidate carries its own cycle's ufrag, and the socket it opened is closed",
+					Bounds: "one IPv4 interface, host candidates, Restart after 0..8 (thorough 0..12) fair hand-overs, context bound 1, first 4 (thorough 6) free switches explored; a select with several ready cases is a choice point", MustReach: []string{"announced-before-restart", "cancelled-before-announcing", "done"},
+					Cfg: func(c *HarnessCfg, tier int) {
+						c.GoPolicy = "explore"
+						c.ContextBound = 1
+						c.FreeChoiceBound = 4 + 2*tier
+						c.MaxPaths = 8000000
+						c.MaxWallS = 1500
+					}},
 			},
 			Assumptions: append([]string{
 				"threads switch only at synchronisation operations (sound for data-race-free code); schedule-dependent counterexamples are replayed by re-executing the recorded schedule on the SSA of the real code",
@@ -240,13 +249,13 @@ func allChecks() []CheckSpec {
 			ID: "C13",
 			Harnesses: []HarnessSpec{
 				{Fn: "verifC13Refcount", Lemma: "2..3 handles for one ufrag share one underlying connection that is closed exactly when the last handle closes (repeated Close is idempotent); a closed handle's reads and writes fail with ErrClosedPipe while siblings keep reading and writing",
-					Bounds: "2..3 handles, 4 (quick) / 6 (thorough) operations from {Close, WriteTo, ReadFrom with a packet queued} on any handle", MustReach: []string{"write-on-closed-handle", "sibling-write", "read-on-closed-handle", "sibling-read", "addrport-handles", "done"},
+					Bounds: "2..3 handles, 4 (quick) / 5 (thorough) operations from {Close, write, read with a packet queued} on any handle, through the net.Addr or the AddrPort methods", MustReach: []string{"write-on-closed-handle", "sibling-write", "read-on-closed-handle", "sibling-read", "addrport-handles", "done"},
 					Cfg: func(c *HarnessCfg, tier int) { c.GoPolicy = "queue" }},
 				{Fn: "verifC13AbortInterleaved", Lemma: "schedule exploration over the real writeToContext/writeTo/startWriteContext/finishWrite/abortWrite/clearWriteDeadlineAfterAbort and the lock-free state word (every atomic operation is a scheduling point): a context-bound write blocked in the socket, a concurrent plain write by another user, and the cancellation of the first context: under every schedule within the bound everybody returns (no deadlock/livelock), the state word returns to 0, the last deadline set on the shared socket is 'none', and a later write succeeds",
-					Bounds: "threads: harness, 2 writers, canceller, the internal abort goroutine, connWorker; at most 2 preemptive context switches (thorough 3) at synchronisation-point granularity incl. every atomic load/CAS/store of the state word", MustReach: []string{"deadline-was-armed", "done"},
+					Bounds: "threads: harness, 2 writers, canceller, the internal abort goroutine, connWorker; at most 2 preemptive context switches (3 was tried for the thorough tier and did not finish in 90 min: not claimed) at synchronisation-point granularity incl. every atomic load/CAS/store of the state word", MustReach: []string{"deadline-was-armed", "done"},
 					Cfg: func(c *HarnessCfg, tier int) {
 						c.GoPolicy = "explore"
-						c.ContextBound = 2 + tier
+						c.ContextBound = 2
 						c.MaxPaths = 4000000
 						c.MaxWallS = 1500
 					}},
